@@ -115,7 +115,7 @@ def frexp(x: fp.Float, ctx: fp.Context) -> tuple[fp.Float, fp.Float]:
     else:
         x = x.normalize()
         m = ctx.round(fp.RealFloat(s=x.s, e=0, c=x.c), exact=True)
-        e = ctx.round(x.e)
+        e = ctx.round(x.e, exact=True)
         return m, e
 
 ############################################################
